@@ -7,13 +7,14 @@
 # and the database text.  What READ finds, what format_name() returns and the charwidths table are
 # measured on the implementation's database / names / charwidths modules and handed to the model
 # (model_arg) -- they belong to C01/C05/C14, C11 and to data.
-import io, itertools, os, random, signal, sys
+import gc, io, itertools, os, random, signal, sys
 from core import *
 from props import c03_util as U
 from props.c03_util import I, Sx, Id, Q, F, cmd
 
 ID = 'C03'
-FUEL = 3000
+FUEL = 3000          # first attempt; the runner repeats an OutOfFuel run with 8x the fuel, three times (cap 1 536 000)
+CPU_LIMIT = 20       # seconds of CPU time of one implementation run before it counts as "does not end"
 
 # ----------------------------------------------------------------------------------------
 # implementation side
@@ -34,7 +35,9 @@ def _execute(arg, want_info=False):
     pybtex.io.stdout = out
     # CPU time of this process, not wall-clock time: a busy machine must not look like a diverging program
     old_handler = signal.signal(signal.SIGVTALRM, U.on_alarm)
-    signal.setitimer(signal.ITIMER_VIRTUAL, 5)
+    gc_was = gc.isenabled()
+    gc.disable()      # a full collection over the (large) case list of this process must not look like a diverging program
+    signal.setitimer(signal.ITIMER_VIRTUAL, CPU_LIMIT)
     try:
         with errors.capture() as captured:
             # the parser belongs to C15; if it rejects or reads the generated source differently, that is an
@@ -100,6 +103,8 @@ def _execute(arg, want_info=False):
     finally:
         signal.setitimer(signal.ITIMER_VIRTUAL, 0)
         signal.signal(signal.SIGVTALRM, old_handler)
+        if gc_was:
+            gc.enable()
         pybtex.io.stdout = old_stdout
 
 def impl_run(arg):
@@ -120,11 +125,15 @@ def _needs_run(cmds):
     return 'read' in [S(c[0]).lower() for c in cmds] or 'format.name$' in U.all_names(cmds)
 
 def _oracle_data(arg):
-    try:
-        _, info = _execute(arg, want_info=True)
-    except Exception:
-        return ([], [])
-    return (info['reads'], U.fmt_table(info['fmt']))
+    """what READ finds and what format_name returns, measured on the implementation; a failure of the measuring
+    run outside the interpreter (it never happened on the unchanged tree) is retried, then reported as missing data"""
+    for attempt in range(3):
+        try:
+            _, info = _execute(arg, want_info=True)
+            return (info['reads'], U.fmt_table(info['fmt']))
+        except Exception:
+            continue
+    return ([], [])
 
 def _oracle_worker(chunk):
     out = []
@@ -189,6 +198,8 @@ def extra_checks(ck, tier, rng):
 
 def canon(fn, out):
     out = canon_res(out)
+    if isinstance(out, list) and len(out) == 2 and out[0] == 3:
+        return [3]         # the model: still OutOfFuel at the cap of out[1] steps = "does not end"
     if isinstance(out, list) and len(out) == 2 and out[0] == 0:
         st = list(out[1])
         st[2] = sorted(st[2])
@@ -221,7 +232,8 @@ ASSUMPTIONS = ['variable / function / field names and entry types are ASCII (Cas
 PARTIAL = []
 
 def describe(fn, arg):
-    return {'bst': U.to_bst(arg[0]), 'citations': [S(c) for c in arg[1]], 'bib': S(arg[2])}
+    return {'bst': U.to_bst(arg[0]), 'citations': [S(c) for c in arg[1]], 'bib': S(arg[2]),
+            'outcome_codes': '[0, state] ended; [1] BibTeX error; [2] foreign exception; [3] does not end (implementation: %d s CPU; model: [3, n] = still OutOfFuel after escalating the fuel to the cap n); [4] parsed script differs from the generated AST; [5] model only: the implementation\'s own READ failed while its result was being measured, so the model has no READ data' % CPU_LIMIT}
 
 def nontrivial(fn, arg, out):
     return out[0] == 0 and bool(out[1][0] or out[1][1] or out[1][3] or out[1][8])
